@@ -337,3 +337,14 @@ Proof.
   destruct (N.eqb_spec (bloom_nbytes p bpk (lenN hashes) * 8) 0); [lia|]. cbn [andb].
   eexists; reflexivity.
 Qed.
+
+(* Contains returns (does not divide by zero) on every filter shorter than 512 MiB *)
+Theorem bloom_contains_total p f key : lenN f <= 2 ^ 29 -> exists b, bloom_contains p f key = Some b.
+Proof.
+  intros Hl. unfold bloom_contains.
+  destruct (N.ltb_spec (lenN f) 2); [eexists; reflexivity|].
+  destruct (b_ckmax p <? get_at f (lenN f - 1)); [eexists; reflexivity|].
+  change (2 ^ 29) with 536870912 in Hl.
+  rewrite w32_small by (change (2 ^ 32) with 4294967296; lia).
+  destruct (N.eqb_spec ((lenN f - 1) * 8) 0); [lia|]. cbn [andb]. eexists; reflexivity.
+Qed.
